@@ -60,6 +60,13 @@ claim("C16", "proof", "ranking-argument rule over natural loops and iterator bod
       "The wall-clock clause ('seconds') is not decided.",
       "DESIGN.md 5/C16")
 
+claim("C09", "other", "term-template rule on the ParsingTable / ParsingIterator methods (acyclic path enumeration), alias and immutability facts",
+      "Decides the premises from which coherence of len/get/iter/is_empty follows by a three-line arithmetic argument spelled out in the evidence: "
+      "len = bytes/size_for, is_empty = (len == 0), get(i) = parse_at at checked i*size_for returned unchanged behind redundant guards only, "
+      "iter/into_iter start at 0 over the same bytes, next = parse_at(&mut offset).ok() with the offset advancing by exactly one entry.",
+      "Partial: the arithmetic theorem itself is a paper argument, not machine-checked. Trusted: C02 (each parse consumes exactly size_for(class) >= 1 bytes).",
+      "DESIGN.md 5/C09")
+
 for pid in ["C01", "C02", "C03", "C04", "C05", "C06", "C07", "C08", "C09", "C10", "C11", "C12", "C13", "C14", "C15", "C16", "C17", "C18", "C20"]:
     if pid not in CLAIMS:
         na(pid, "static rule designed (DESIGN.md section 5) but its checker is not built yet in this revision; not claimed until it runs silent on the tree and fires on control mutants")
